@@ -159,12 +159,12 @@ namespace GeographicLib {
     // and open on the upper end -- and this is reflected in the error
     // messages.  NaNs are let through.
     if (x < minx_ || x >= maxx_)
-      throw GeographicErr("Easting " + Utility::str(int(floor(x/1000)))
+      throw GeographicErr("Easting " + Utility::str(floor(x/1000), 0)
                           + "km not in OSGB range ["
                           + Utility::str(minx_/1000) + "km, "
                           + Utility::str(maxx_/1000) + "km)");
     if (y < miny_ || y >= maxy_)
-      throw GeographicErr("Northing " + Utility::str(int(floor(y/1000)))
+      throw GeographicErr("Northing " + Utility::str(floor(y/1000), 0)
                           + "km not in OSGB range ["
                           + Utility::str(miny_/1000) + "km, "
                           + Utility::str(maxy_/1000) + "km)");
